@@ -1,8 +1,8 @@
 from props import RULE_SET, only  # noqa: F401
 
 CFG = {
-    "gen_profiles": ["C04"],
-    "cases": {"quick": 300, "thorough": 3000},
+    "gen_profiles": ["C04", "C04T"],
+    "cases": {"quick": 500, "thorough": 5000},
     "compare": "full",
     "rule": ("producer x producer: a target set (runs/singles over 1-3 chunks, chunk populations steered to 4094..4098) is built "
              "through two different construction histories; `eq` both ways is expected true (oracle line), both dumps are "
@@ -14,6 +14,9 @@ CFG = {
         "bitset chunk": r"dump .* nb=[1-9]",
         "two or more chunks": r"dump .* nc=[2-9]",
         "eq true": r"^eq .*=> true",
+        "treemap eq true": r"^teq .*=> true",
+        "treemap partition-wise construction with an empty bitmap": r"^tfrom_bitmaps ",
+        "treemap multi-op with cancelled partition": r"^tmulti xor ",
         "eq false after one-element difference": r"^eq .*=> false",
     },
     "gaps": ["producer table: proved rows = every C01 mutator (C01_step), C02 binary operations (C02_all_forms), see evidence of C06/C09/C17 for decoders, multi-ops and from_lsb0_bytes",
